@@ -4,6 +4,9 @@ namespace H2.Server.Flow
 
 def total (o : List Data) : Nat := (o.map (·.len)).sum
 
+/-- number of DATA frames carrying END_STREAM -/
+def finTotal (o : List Data) : Nat := (o.filter (·.fin)).length
+
 structure SendSpec (s : Strm) (cw : Int) (cs : Nat) (r : Strm × Int × Nat × List Data) : Prop where
   id : r.1.id = s.id
   resp : r.1.responded = s.responded
@@ -16,15 +19,19 @@ structure SendSpec (s : Strm) (cw : Int) (cs : Nat) (r : Strm × Int × Nat × L
   pend : r.1.pending + total r.2.2.2 = s.pending
   blocked : r.1.pending = 0 ∨ min r.1.window r.2.1 ≤ 0
   outs : ∀ d ∈ r.2.2.2, 0 < d.len ∧ (d.len : Int) ≤ d.availBefore ∧ d.len ≤ maxFrame
+  fins : r.1.fins = s.fins + finTotal r.2.2.2
+  finspec : finTotal r.2.2.2 = if 0 < s.pending ∧ r.1.pending = 0 then 1 else 0
+  ids : ∀ d ∈ r.2.2.2, d.id = s.id
 
 theorem sendData_spec (s : Strm) (cw : Int) (cs : Nat) : SendSpec s cw cs (sendData s cw cs) := by
   fun_induction sendData s cw cs with
   | case1 s cw cs h =>
-    constructor <;> simp [total, h]
+    constructor <;> simp [total, finTotal, h]
   | case2 s cw cs h avail ha =>
-    constructor <;> simp [total]
-    right; exact ha
-  | case3 s cw cs h avail ha step hstep s' s'' cw' cs' outs heq ih =>
+    constructor <;> simp [total, finTotal]
+    · right; exact ha
+    · intro _ h0; exact absurd h0 h
+  | case3 s cw cs h avail ha step hstep fin s' s'' cw' cs' outs heq ih =>
     rw [heq] at ih
     have hs : (step : Int) ≤ avail := by
       simp only [step, maxFrame]; omega
@@ -46,6 +53,33 @@ theorem sendData_spec (s : Strm) (cw : Int) (cs : Nat) : SendSpec s cw cs (sendD
       rcases hd with rfl | hd
       · exact ⟨hstep, hs, hm⟩
       · exact ih.outs d hd
+    · have := ih.fins
+      simp only [s'] at this
+      simp only [finTotal, List.filter_cons] at *
+      cases hf : fin <;> simp [hf] at this ⊢ <;> omega
+    · have h1 := ih.finspec
+      have h2 := ih.pend
+      simp only [s'] at h1 h2
+      have hpos : 0 < s.pending := by omega
+      simp only [finTotal, List.filter_cons] at *
+      by_cases hz : s.pending - step = 0
+      · have hf : fin = true := by simp [fin, hz]
+        -- the recursive call starts from pending = 0: it emits nothing
+        have h0 : (List.filter (fun x => x.fin) outs).length = 0 := by
+          rw [h1]; simp [hz]
+        have hp0 : s''.pending = 0 := by
+          simp only [total] at h2; omega
+        simp [hf, h0, hpos, hp0]
+      · have hf : fin = false := by simp [fin, hz]
+        have : (0 < s.pending - step) := by omega
+        simp only [hf, Bool.false_eq_true, if_false]
+        rw [h1]
+        simp [this, hpos]
+    · intro d hd
+      simp only [List.mem_cons] at hd
+      rcases hd with rfl | hd
+      · rfl
+      · have := ih.ids d hd; simpa [s'] using this
 
 
 def Ledger (s : Strm) : Prop := s.window = s.granted - s.sent
@@ -310,5 +344,158 @@ theorem run_inv (evs : List Ev) (st : St) (h : Inv st) : Inv (run st evs).1 ∧ 
     rcases hd with hd | hd
     · exact o1 d hd
     · exact o2 d hd
+
+
+/-! ## END_STREAM is sent once (ghost counter `fins`, linked to the outputs by `sendData_spec.fins`) -/
+
+def FinInv (s : Strm) : Prop := s.fins ≤ 1 ∧ (s.fins = 1 → s.pending = 0 ∧ s.responded = true)
+
+def FinAll (st : St) : Prop := ∀ s ∈ st.strms, FinInv s
+
+theorem send_fin {s : Strm} (cw : Int) (cs : Nat) (h : FinInv s) (hr : s.responded = true) :
+    FinInv (sendData s cw cs).1 := by
+  have sp := sendData_spec s cw cs
+  have h1 := sp.fins
+  have h2 := sp.finspec
+  have h3 := sp.resp
+  obtain ⟨hle, himp⟩ := h
+  by_cases hp : 0 < s.pending
+  · have hf0 : s.fins = 0 := by
+      by_cases h1' : s.fins = 1
+      · have := (himp h1').1; omega
+      · omega
+    by_cases hz : (sendData s cw cs).1.pending = 0
+    · rw [h2] at h1; simp [hp, hz] at h1
+      exact ⟨by omega, fun _ => ⟨hz, by rw [h3]; exact hr⟩⟩
+    · rw [h2] at h1; simp [hp, hz] at h1
+      exact ⟨by omega, fun h' => by omega⟩
+  · have hp0 : s.pending = 0 := by omega
+    have hpend := sp.pend
+    rw [h2] at h1; simp [hp0] at h1
+    refine ⟨by omega, fun h' => ⟨by omega, by rw [h3]; exact hr⟩⟩
+
+theorem flushAll_fin (ss : List Strm) (cw : Int) (cs : Nat) (h : ∀ s ∈ ss, FinInv s) :
+    ∀ s ∈ (flushAll ss cw cs).1, FinInv s := by
+  induction ss generalizing cw cs with
+  | nil => simp [flushAll]
+  | cons s rest ih =>
+    have hs : FinInv s := h s (by simp)
+    have hr : ∀ x ∈ rest, FinInv x := fun x hx => h x (by simp [hx])
+    simp only [flushAll]
+    split
+    · rename_i hf
+      have hresp : s.responded = true := by
+        simp only [flushable, Bool.and_eq_true] at hf; exact hf.1.1
+      have h1 := send_fin cw cs hs hresp
+      rcases hsd : sendData s cw cs with ⟨s1, cw1, cs1, o1⟩
+      rw [hsd] at h1
+      have ih' := ih cw1 cs1 hr
+      rcases hfa : flushAll rest cw1 cs1 with ⟨r2, cw2, cs2, o2⟩
+      rw [hfa] at ih'
+      intro x hx
+      simp only [List.mem_cons] at hx
+      rcases hx with rfl | hx
+      · exact h1
+      · exact ih' x hx
+    · have ih' := ih cw cs hr
+      rcases hfa : flushAll rest cw cs with ⟨r2, cw2, cs2, o2⟩
+      rw [hfa] at ih'
+      intro x hx
+      simp only [List.mem_cons] at hx
+      rcases hx with rfl | hx
+      · exact hs
+      · exact ih' x hx
+
+theorem step_fin (st : St) (e : Ev) (h : FinAll st) : FinAll (step st e).1 := by
+  cases e with
+  | opn id =>
+    simp only [step]
+    split
+    · exact h
+    · intro s hs
+      simp only [List.mem_append, List.mem_singleton] at hs
+      rcases hs with hs | rfl
+      · exact h s hs
+      · simp [FinInv]
+  | done id len =>
+    simp only [step]
+    split
+    · exact h
+    · rename_i s hfind
+      obtain ⟨hmem, _⟩ := findStrm_mem hfind
+      split
+      · exact h
+      · rename_i hnr
+        have hs := h s hmem
+        have hf0 : s.fins = 0 := by
+          by_cases h1 : s.fins = 1
+          · have := (hs.2 h1).2; simp [this] at hnr
+          · have := hs.1; omega
+        have hs1 : FinInv { s with responded := true, running := false, pending := len } := by
+          simp [FinInv, hf0]
+        have h1 := send_fin st.cw st.csent hs1 rfl
+        rcases hsd : sendData { s with responded := true, running := false, pending := len } st.cw st.csent with ⟨s2, cw2, cs2, o2⟩
+        rw [hsd] at h1
+        intro x hx
+        rcases mem_updStrm hx with hx | ⟨y, _, _, rfl⟩
+        · exact h x hx
+        · exact h1
+  | wuS id n =>
+    simp only [step]
+    split
+    · exact h
+    · rename_i s hfind
+      obtain ⟨hmem, _⟩ := findStrm_mem hfind
+      have hs := h s hmem
+      have hs1 : FinInv { s with window := s.window + n, granted := s.granted + n } := by
+        simpa [FinInv] using hs
+      split
+      · rename_i hf
+        have hresp : ({ s with window := s.window + n, granted := s.granted + n } : Strm).responded = true := by
+          simp only [flushable, Bool.and_eq_true] at hf; exact hf.1.1
+        have h1 := send_fin st.cw st.csent hs1 hresp
+        rcases hsd : sendData { s with window := s.window + n, granted := s.granted + n } st.cw st.csent with ⟨s2, cw2, cs2, o2⟩
+        rw [hsd] at h1
+        intro x hx
+        rcases mem_updStrm hx with hx | ⟨y, _, _, rfl⟩
+        · exact h x hx
+        · exact h1
+      · intro x hx
+        rcases mem_updStrm hx with hx | ⟨y, _, _, rfl⟩
+        · exact h x hx
+        · exact hs1
+  | wuC n =>
+    simp only [step]
+    have := flushAll_fin st.strms (st.cw + n) st.csent h
+    rcases hfa : flushAll st.strms (st.cw + n) st.csent with ⟨ss, cw2, cs2, o2⟩
+    rw [hfa] at this
+    exact this
+  | rst id =>
+    simp only [step, stepRst]
+    intro x hx
+    rcases mem_updStrm hx with hx | ⟨y, hy, _, rfl⟩
+    · exact h x hx
+    · have := h y hy
+      refine ⟨by simpa [dropPending] using this.1, fun h1 => ⟨by simp [dropPending], ?_⟩⟩
+      have := this.2 (by simpa [dropPending] using h1)
+      simpa [dropPending] using this.2
+  | settings v =>
+    simp only [step]
+    have hb : ∀ s ∈ st.strms.map (bump ((v : Int) - st.initWin)), FinInv s := by
+      intro s hs
+      simp only [List.mem_map] at hs
+      obtain ⟨y, hy, rfl⟩ := hs
+      simpa [FinInv, bump] using h y hy
+    have := flushAll_fin _ st.cw st.csent hb
+    rcases hfa : flushAll (st.strms.map (bump ((v : Int) - st.initWin))) st.cw st.csent with ⟨ss, cw2, cs2, o2⟩
+    rw [hfa] at this
+    exact this
+
+theorem run_fin (evs : List Ev) (st : St) (h : FinAll st) : FinAll (run st evs).1 := by
+  induction evs generalizing st with
+  | nil => exact h
+  | cons e es ih =>
+    simp only [run]
+    exact ih _ (step_fin st e h)
 
 end H2.Server.Flow
